@@ -17,7 +17,8 @@ From V.proofs Require Import Client_Proofs Client16_Proofs Router_Proofs.
      604 a call that got no response did not fail with a time-out, or disturbed other pending calls
      605 the outputs lookup did not return, per outpoint and in order, that outpoint's value (or an error)
      606 a call reported a result although nothing answered it
-     607 a response reached a request on a connection that is not accepted *)
+     607 a response reached a request on a connection that is not accepted
+     609 a call's message was written before its request was registered *)
 Theorem C16_monitor_silent : forall (full : bool) (qcap : Z) (ops : list op),
   c16_monitor ops (run full qcap ops) = None.
 Proof. exact c16_monitor_silent. Qed.
